@@ -48,6 +48,10 @@ DrawMatrix(x, y) == LET c == MDot(cview, <<x, y>>)
 TextMatrix(x, y) == LET m0 == DrawMatrix(x, y)
                         m1 == IF csys \in {2,3} THEN MMul(m0, MSc(1,-1)) ELSE m0
                     IN IF csys \in {1,2} THEN MMul(m1, MSc(-1,1)) ELSE m1
+\* an image drawn at 0.5 px/mm: every pixel is 2 mm wide; the un-mirroring in the flipped systems is about half the PIXEL size
+ImageMatrixHalf(x, y) == LET m0 == MMul(DrawMatrix(x, y), MSc(2,2))
+                             m1 == IF csys \in {2,3} THEN MMul(m0, MRefYAbout2(ImgH)) ELSE m0
+                         IN IF csys \in {1,2} THEN MMul(m1, MRefXAbout2(ImgW)) ELSE m1
 ImageMatrix(x, y) == LET m0 == DrawMatrix(x, y)     \* resolution 1 px/mm
                          m1 == IF csys \in {2,3} THEN MMul(m0, MRefYAbout2(ImgH)) ELSE m0
                      IN IF csys \in {1,2} THEN MMul(m1, MRefXAbout2(ImgW)) ELSE m1
@@ -129,11 +133,11 @@ CoordCalls ==
 DrawCalls ==
   CASE Profile = "stack"  -> {Call("DrawPath", <<2,1>>), Call("DrawText", <<0,0>>)}
     [] Profile = "zorder" -> {Call("DrawPath", <<0,0>>), Call("DrawImage", <<2,1>>), Call("DrawText", <<2,1>>)}
-    [] Profile = "canvas" -> {Call("DrawPath", <<2,1>>), Call("DrawImage", <<0,0>>), Call("DrawLine", <<1,2>>), Call("FitImageCover", <<1,1>>)}
+    [] Profile = "canvas" -> {Call("DrawPath", <<2,1>>), Call("DrawImage", <<0,0>>), Call("DrawImageHalf", <<1,0>>), Call("DrawLine", <<1,2>>), Call("FitImageCover", <<1,1>>)}
     [] OTHER ->
         {Call("DrawPath", p) : p \in Pos} \cup {Call("DrawText", p) : p \in Pos} \cup {Call("DrawImage", p) : p \in Pos}
         \cup {Call("Fill", <<>>), Call("Stroke", <<>>), Call("FillStroke", <<>>)}
-        \cup {Call("DrawLine", <<1,2>>), Call("FitImageCover", <<1,1>>), Call("FitImageFill", <<0,2>>)}
+        \cup {Call("DrawLine", <<1,2>>), Call("FitImageCover", <<1,1>>), Call("FitImageFill", <<0,2>>), Call("DrawImageHalf", <<1,2>>), Call("DrawImageHalf", <<-1,0>>)}
 
 CanvasCalls ==
   CASE Profile = "stack"  -> {}
@@ -183,6 +187,7 @@ DrawC(c) ==
           [] c.op = "DrawLine"   -> IF HasFill(st) \/ HasStroke(st) THEN Append(layers, [PathLayer(st, DrawMatrix(c.a[1], c.a[2])) EXCEPT !.kind = "line"]) ELSE layers
           [] c.op = "DrawText"   -> Append(layers, [z |-> z, kind |-> "text", m |-> TextMatrix(c.a[1], c.a[2]), st |-> DefaultStyle, step |-> Step, iw |-> 0, ih |-> 0])
           [] c.op = "DrawImage"  -> Append(layers, [z |-> z, kind |-> "image", m |-> ImageMatrix(c.a[1], c.a[2]), st |-> DefaultStyle, step |-> Step, iw |-> ImgW, ih |-> ImgH])
+          [] c.op = "DrawImageHalf" -> Append(layers, [z |-> z, kind |-> "image", m |-> ImageMatrixHalf(c.a[1], c.a[2]), st |-> DefaultStyle, step |-> Step, iw |-> ImgW, ih |-> ImgH])
           [] c.op = "FitImageCover" -> Append(layers, [z |-> z, kind |-> "image", m |-> FitMatrix(c.a[1], c.a[2], 2), st |-> DefaultStyle, step |-> Step, iw |-> FitW, ih |-> 2])
           [] c.op = "FitImageFill"  -> Append(layers, [z |-> z, kind |-> "image", m |-> FitMatrix(c.a[1], c.a[2], 6), st |-> DefaultStyle, step |-> Step, iw |-> FitW, ih |-> 6])
           [] c.op = "Fill"       -> LET s == [st EXCEPT !.stroke = "none"] IN
